@@ -381,6 +381,10 @@ func (w *world) checkStealOnWrite(key string, svc *v1.Service) {
 				w.stat("probe.steal-check-skipped-record-in-conflict-with-a-cotenant")
 				continue
 			}
+			if containsAddr(inc.justifiedRelease[ok], a) {
+				w.stat("probe.steal-check-skipped-justified-in-memory-release")
+				continue
+			}
 			if !specalloc.MayShare(svc, view) {
 				sig := ""
 				if containsAddr(inc.staleDropped[ok], a) {
